@@ -138,8 +138,6 @@ def evaluate(case):
             if listed:
                 V.append(Violation('list.content', case, dict(detail, observed=listed[:3], expected=[])))
             return Eval(V, outcome=[case['history'], 'bad'], nontrivial=False, transitions=12)
-        if not cls or cls[0][0] != 'header':
-            V.append(Violation('list.header', case, dict(detail, out=o1[:3])))
         if capn is None or capn == 0:
             want = matches if capn is None else None     # `~ 0` is outside the property (N >= 1)
         else:
@@ -148,20 +146,20 @@ def evaluate(case):
             V.append(Violation('list.content', case, dict(detail, expected=want[-5:], observed=listed[-5:],
                                                           expected_n=len(want), observed_n=len(listed))))
         recorded = len(pool)
-        if listed:
-            if len(counts) != 1 or none_of or no_msgs:
-                V.append(Violation('list.count_line', case, dict(detail, out=o1[-2:])))
-            else:
-                c = counts[0]
-                if c['matched'] != len(listed) or c['matched'] + c['didnt'] + c['notchecked'] != recorded or \
-                        (capn in (None, 0) and c['notchecked'] != 0):
-                    V.append(Violation('list.counts', case, dict(detail, counts=c, shown=len(listed), recorded=recorded)))
-        else:
-            if not msgs:
-                if not no_msgs:
-                    V.append(Violation('list.count_line', case, dict(detail, out=o1)))
-            elif len(none_of) != 1 or none_of[0]['n'] != recorded or counts:
+        # the counts: a line with the three numbers, or - when nothing is listed - a line that gives the number searched
+        # (`None of the N ...`) or says that nothing has been recorded; how an empty result is worded is presentation
+        if len(counts) == 1:
+            c = counts[0]
+            if c['matched'] != len(listed) or c['matched'] + c['didnt'] + c['notchecked'] != recorded or \
+                    (capn in (None, 0) and c['notchecked'] != 0):
+                V.append(Violation('list.counts', case, dict(detail, counts=c, shown=len(listed), recorded=recorded)))
+        elif listed or len(counts) > 1:
+            V.append(Violation('list.count_line', case, dict(detail, out=o1[-2:])))
+        elif len(none_of) == 1:
+            if none_of[0]['n'] != recorded:
                 V.append(Violation('list.counts', case, dict(detail, none_of=none_of, recorded=recorded, out=o1[-2:])))
+        elif not (no_msgs and recorded == 0 and not msgs):
+            V.append(Violation('list.count_line', case, dict(detail, out=o1)))
     except Exception:
         V.append(sut.exc_violation(case))
     return Eval(V, outcome=[case['history'], len(V)], nontrivial=case['cap'] not in ('absent', 0) and case['history'] != 'empty',
